@@ -21,6 +21,7 @@ CONSTANTS
   CHAIN = FALSE
   WILD = FALSE
   FIXMODEL = "intended"
+  ANYRATIO = FALSE
   BASEMOD = 2
   EMIT = FALSE
 CHECK_DEADLOCK FALSE
